@@ -580,6 +580,37 @@ def step (st : St) (line : String) : St × String :=
     let ctx : EngineCtx := { mg := st.mg, keys := fun i => zkeysOf (defaultKeysFrom (1000 + i.toUInt64)) }
     let (out, oc) := Engine.uciLoop ctx lines {}
     (st, both s!"{linesText out} => {outcomeText oc}" "?")
+  | "uci.golegal" :: _ =>
+    -- uci.golegal <line>;;<line>;;...  for every `go` the script executes: the UCI texts of the moves that are legal BY THE RULES
+    -- in the position the preceding position commands prescribe (boards come from the model's make-move, proved equal to the
+    -- rules' successor on valid boards; no search is run).  Output: one `|`-separated group per go.
+    let raw := (line.trimAscii.toString.drop 12).toString
+    let lines := (raw.splitOn ";;").map String.toList
+    let ctx : EngineCtx := { mg := st.mg, keys := fun i => zkeysOf (defaultKeysFrom (1000 + i.toUInt64)) }
+    let uci (m : Move) : String :=
+      let sq (s : Nat) : String := String.ofList [Char.ofNat (97 + s % 8), Char.ofNat (49 + s / 8)]
+      sq m.src ++ sq m.dst ++ (if m.kind == .promotion then
+        (match m.piece with | .knight => "n" | .bishop => "b" | .rook => "r" | .queen => "q" | _ => "") else "")
+    let rec walk (ls : List (List Char)) (e : Engine) (acc : List String) (fuel : Nat) : List String :=
+      match fuel, ls with
+      | 0, _ => acc
+      | _, [] => acc
+      | fuel + 1, l :: rest =>
+        let parts := splitWs l
+        match parts with
+        | [] => walk rest e acc fuel
+        | cmd :: _ =>
+          if cmd = kwGo then
+            let legal := ((Spec.legalMoves (Spec.abs e.board)).map uci).mergeSort (fun a b => decide (a ≤ b))
+            walk rest e ((if Spec.valid e.board then " ".intercalate legal else "?") :: acc) fuel
+          else if cmd = kwQuit then acc
+          else
+            let (_, e', oc) := Engine.handleCommand ctx e parts
+            match oc with
+            | .running => walk rest e' acc fuel
+            | _ => acc
+    let groups := (walk lines {} [] (lines.length + 1)).reverse
+    (st, both "?" ("|".intercalate groups))
   -- ---------------------------------------------------------------- C12
   | "go.params" :: side :: rest =>
     let c := if side = "w" then Color.white else Color.black
